@@ -79,6 +79,41 @@ supported_types = {
 }
 
 
+# Names the generated python module imports or defines for its own use. A constant,
+# string constant, alias, host id or struct is written into that module under its own
+# name and would silently replace them (e.g. an alias named Double turns every
+# `Double()` field descriptor into a ctypes type: the fields vanish from the class).
+RESERVED_NAMES = (
+    "ctypes",
+    "pyrtma",
+    "ClassVar",
+    "MessageBase",
+    "MessageMeta",
+    "MessageData",
+    "Int8",
+    "Int16",
+    "Int32",
+    "Int64",
+    "Uint8",
+    "Uint16",
+    "Uint32",
+    "Uint64",
+    "Float",
+    "Double",
+    "Struct",
+    "IntArray",
+    "FloatArray",
+    "StructArray",
+    "Char",
+    "String",
+    "Byte",
+    "ByteArray",
+    "check_compiled_version",
+    "get_context",
+    "COMPILED_PYRTMA_VERSION",
+)
+
+
 class ParserError(Exception):
     """Base class for all parser exceptions"""
 
@@ -531,6 +566,7 @@ class Parser:
 
     def handle_expression(self, name: str, expression: Union[int, float, str]):
         self.check_name(name)
+        self.check_reserved_name("constants", name)
         self.check_duplicate_name(
             "constants",
             name,
@@ -569,6 +605,7 @@ class Parser:
 
     def handle_string(self, name: str, value: str):
         self.check_name(name)
+        self.check_reserved_name("string_constants", name)
         self.check_duplicate_name(
             "string_constants",
             name,
@@ -600,6 +637,7 @@ class Parser:
             )
 
         self.check_name(alias)
+        self.check_reserved_name("aliases", alias)
         self.check_duplicate_name(
             "aliases",
             alias,
@@ -645,6 +683,7 @@ class Parser:
 
     def handle_host_id(self, name: str, value: int):
         self.check_name(name)
+        self.check_reserved_name("host_ids", name)
         self.check_duplicate_name("host_ids", name, namespaces=("host_ids",))
 
         if not isinstance(value, int):
@@ -1052,6 +1091,7 @@ class Parser:
     def handle_struct(self, name: str, sdf: Dict[str, Any]):
         # Check for valid name
         self.check_name(name)
+        self.check_reserved_name("struct_defs", name)
 
         self.check_duplicate_name(
             "struct_defs",
@@ -1107,6 +1147,13 @@ class Parser:
         if not name.startswith(tuple(c for c in string.ascii_letters)):
             raise RTMASyntaxError(
                 f"Invalid name {name} in {self.current_file}. Names can only start with letters"
+            )
+
+    def check_reserved_name(self, section: str, name: str):
+        """Check that a name emitted as-is does not replace a name the generated code uses."""
+        if name in RESERVED_NAMES:
+            raise RTMASyntaxError(
+                f"{name} is a reserved name for internal use by the generated code: {section} -> {name} -> {self.current_file}"
             )
 
     def handle_message_def(self, name: str, mdf: Dict[str, Any]):
